@@ -27,8 +27,11 @@ NSHARDS = 16
 
 def plan(tier, seed):
     n = 220 if tier == "quick" else 3800
-    return [{"i": i, "pairs": n, "file_every": 10, "subproc": 6 if tier == "quick" else 60,
-             "timeout": 600 if tier == "quick" else 2400} for i in range(NSHARDS)]
+    specs = [{"i": i, "pairs": n, "file_every": 10, "subproc": 6 if tier == "quick" else 60,
+              "timeout": 600 if tier == "quick" else 2400} for i in range(NSHARDS)]
+    # two more shards under `python -O` (assert statements compiled away, as PYTHONOPTIMIZE=1 deployments run)
+    specs += [dict(specs[i], python_flags=["-O"], subproc=0) for i in (0, 1)]
+    return specs
 
 
 def classify_exc(key, tmpl):
